@@ -453,6 +453,66 @@ def erase_async(toks, log, awaitcall=False):
     return out
 
 
+def desugar_impl_future(toks, log):
+    """R3c: `fn f(..) -> impl Future<Output = T> [+ Send] [where ..] { [stmts] async move { BODY } }` is an `async fn f(..) -> T { [stmts] BODY }` written out
+    (the form a trait method with a default body has to take): the return type becomes T and the `async move` block a plain block; `.await` is erased by R3."""
+    toks = list(toks)
+    k = 0
+    changed = False
+    while k < len(toks):
+        t = toks[k]
+        if _is(t, 'ident', 'impl'):
+            n1 = _next_sig(toks, k)
+            n2 = _next_sig(toks, n1) if n1 is not None else None
+            if n1 is not None and n2 is not None and _is(toks[n1], 'ident', 'Future') and _is(toks[n2], 'punct', '<'):
+                # find `Output =` and the matching `>`
+                d = 0
+                q = n2
+                eq = None
+                end = None
+                while q < len(toks):
+                    u = toks[q]
+                    if u.kind == 'punct' and u.text == '<':
+                        d += 1
+                    elif u.kind == 'punct' and u.text == '>' and not (toks[q - 1].kind == 'punct' and toks[q - 1].text == '-'):
+                        d -= 1
+                        if d == 0:
+                            end = q
+                            break
+                    elif u.kind == 'punct' and u.text == '=' and d == 1 and eq is None:
+                        eq = q
+                    q += 1
+                if eq is not None and end is not None:
+                    inner = toks[eq + 1:end]
+                    # optional `+ Send` / `+ 'a` bounds after the `>`
+                    e2 = end
+                    while True:
+                        p1 = _next_sig(toks, e2)
+                        if p1 is not None and _is(toks[p1], 'punct', '+'):
+                            p2 = _next_sig(toks, p1)
+                            e2 = p2
+                            if p2 is not None and toks[p2].kind == 'punct' and toks[p2].text == "'":
+                                e2 = _next_sig(toks, p2)
+                            continue
+                        break
+                    log.append(('R3c', '`-> impl Future<Output = T>` with an `async move` body written as the async fn it is', t.line))
+                    toks = toks[:k] + inner + toks[e2 + 1:]
+                    changed = True
+                    continue
+        if changed and _is(t, 'ident', 'async'):
+            n1 = _next_sig(toks, k)
+            if n1 is not None and _is(toks[n1], 'ident', 'move'):
+                n2 = _next_sig(toks, n1)
+                if n2 is not None and _is(toks[n2], 'punct', '{'):
+                    toks = toks[:k] + toks[n2:]
+                    continue
+            elif n1 is not None and _is(toks[n1], 'punct', '{'):
+                toks = toks[:k] + toks[n1:]
+                continue
+        k += 1
+    return toks
+
+
 def drop_vis(toks, log):
     """R6: drop `pub`, `pub(crate)`, `pub(super)`"""
     out = []
